@@ -22,7 +22,7 @@ func init() {
 		Rule: "snapshot-registry monitor with argument scribbling: seeded random histories (C08's state machine supplies what each step may change) over TensorOf at every nesting depth / Full / Slice / Patch / Concat / Reshape / Broadcast / UnSqueeze / Flatten / Transpose / reductions / element-wise and implicitly broadcasting operations / Dot / MatMul / comparisons, BackPropagate and ResetGradContext. " +
 			"After EVERY call: (1) every slice that was passed in (dims, shape, nested data at every level, []Range, []Tensor, At index) and every slice handed out (Shape()) is overwritten with garbage - a random mix of invalid values and valid-but-different ones; (2) the registry re-reads EVERY tensor created so far: Shape(), every element's bits, gradient identity, the gradient's own elements, hooked tracked/spent flags - only the set the state machine allows may differ (BackPropagate: gradients/spent flags of the reachable tracked set; ResetGradContext: its receiver). " +
 			"At the end the same history is re-executed WITHOUT scribbling and every tensor and every final gradient must be bit-identical. A component scenario (NewFC with initializers that scribble the shape they were given, Weights() slice scribbled, variadic Forward inputs scribbled, loss, BackPropagate, SGD.Update through pointers) is monitored the same way. " +
-			"Non-trivial: the history passes >= 1 slice argument and back-propagates after scribbling; distinct = multiset of (operation kinds with slice arguments) x number of back-propagations x length class.",
+			"Non-trivial: the history passes >= 1 slice argument and back-propagates after scribbling; distinct = multiset of (operation kinds with slice arguments) x number of back-propagations x length class. Later additions: MatMul / Dot / keepdims / Pow(0) / Var/StdAlong and ranks up to 6 in the generator; after every call the argument slices are compared with what was passed (the library must not write into them) before they are scribbled; rejected calls and adopted gradient tensors as actions.",
 		Assumptions: []string{"what a step may legitimately change is taken from the C08 state machine (only BackPropagate assigns gradients and spends, only ResetGradContext changes tracking)"},
 		FloorQuick:  3000, FloorThor: 50000,
 		Run: runC10,
